@@ -5,7 +5,7 @@
 From Coq Require Import PrimFloat QArith Qabs Sorting.Permutation.
 From EsVerif.Common Require Import Base.
 From EsVerif.C05 Require Import Model Spec.
-From EsVerif.C14 Require Import Model Spec NumProofs StatProofs Proofs NumBinProofs.
+From EsVerif.C14 Require Import Model Spec NumProofs StatProofs Proofs NumBinProofs NumModelProofs.
 
 (* ------------------------------------------------------------------ members of a bin *)
 (* binsize/nbin mode: slice i of the reverse indices computed by the model holds exactly the
@@ -88,11 +88,8 @@ Proof. intros fuel k merge l Hk Hl. apply chunks_sizes; assumption. Qed.
 (* The pass of _hist_by_num on the positions 0..n-1 of the selected sorted data (bin number
    position / nperbin, nbin = (n-1)/nperbin + 1, through C05's single pass): bin i holds exactly
    the consecutive positions i*k .. min((i+1)*k, n)-1, every bin but the last exactly k of them,
-   the last 1..k, nothing uncounted.  PARTIAL: the two later steps of the model (mapping the
-   slices to indices of the original array with low/high, and _merge_last) are not covered by a
-   for-all theorem; they are tied by the correspondence run, by num_check on every real output
-   and by the exhaustive small-scope sweep Exec.num_sweep. *)
-Theorem C14_nperbin_pass_partial : forall k n hist rev0, 1 <= k -> 1 <= n ->
+   the last 1..k, nothing uncounted. *)
+Theorem C14_nperbin_pass : forall k n hist rev0, 1 <= k -> 1 <= n ->
   chist (fun j => j / k) ((n - 1) / k + 1) (zseq 0 (Z.to_nat n)) = (hist, rev0) ->
   let nbin := (n - 1) / k + 1 in
   Z.of_nat (length hist) = nbin
@@ -106,6 +103,38 @@ Theorem C14_nperbin_pass_partial : forall k n hist rev0, 1 <= k -> 1 <= n ->
        /\ 1 <= zget hist i <= k
        /\ (i + 1 < nbin -> zget hist i = k).
 Proof. exact nperbin_pass_slices. Qed.
+
+(* The whole of _hist_by_num / _merge_last as modelled (pass, mapping of the slices to indices of
+   the original array with low/high, merge of a short last bin): for ANY index list wsort the
+   result is the chunk list of wsort — slice i of rev is chunk i, hist[i] its size, low/high the
+   values of its first/last element, the index section of rev is wsort itself. *)
+Theorem C14_hist_by_num_spec : forall (x : list float) (wsort : list Z) (k : Z) (merge : bool) hist rev low high,
+  1 <= k -> wsort <> [] ->
+  hist_by_num x wsort k merge = (hist, rev, low, high) ->
+  let ch := chunks (length wsort) (Z.to_nat k) merge wsort in
+  length hist = length ch /\ length low = length ch /\ length high = length ch
+  /\ skipn (S (length hist)) rev = wsort
+  /\ forall i, (i < length ch)%nat ->
+       let b := nth i ch [] in
+       b <> []
+       /\ 0 <= zget rev (Z.of_nat i) /\ 0 <= zget rev (Z.of_nat i + 1)
+       /\ zget rev (Z.of_nat i) <> zget rev (Z.of_nat i + 1)
+       /\ slice rev (Z.of_nat i) = b
+       /\ zget hist (Z.of_nat i) = Z.of_nat (length b)
+       /\ nth i low nan = fget x (hd 0 b)
+       /\ nth i high nan = fget x (last b 0).
+Proof. exact hist_by_num_spec. Qed.
+
+(* nperbin mode end to end: whenever the selected data come in stable sorted order (contract of
+   numpy's argsort + the min/max selection; decided on every case by num_check), the modelled
+   Binner(x, y, weights).dohist(nperbin=k, mergelast=) satisfies the property, statistics included. *)
+Theorem C14_nperbin_spec : forall c lo hi k merge b dmin dmax wsort rows,
+  binner_num true c lo hi k merge = Ok b -> cols_ok c = true -> 1 <= k ->
+  limits (c_x c) (argsort (c_x c)) lo hi = Ok (dmin, dmax, wsort) ->
+  ordered (c_x c) wsort -> Permutation wsort (selected c lo hi) ->
+  rows_meet rows (n_rows b) = true ->
+  num_ok c lo hi k merge (n_hist b) (n_rev b) (n_low b) (n_high b) rows.
+Proof. exact binner_num_spec. Qed.
 
 (* ------------------------------------------------------------------ the repaired defect *)
 (* As found (util.py:410) a single-member bin stored x*w in whist: for x = 0.5, w = 2 the as-found
